@@ -145,7 +145,14 @@ def pre_formulas(tier: str):
               "(and (p ?x) (p ?y))", "(and (not (p ?x)) (not (p ?y)) (r))", "(and (or (p ?x) (p ?y)) (p ?x))",
               "(and (m c))", "(and (not (m c)) (p ?x))", "(and (or (m c) (q ?x c)))",   # constant of a proper subtype of the position's type
               "(and (or (r) (>= (g ?x) 1)))", "(and (p ?x) (or (not (r)) (< (f) (g ?y))))",   # comparisons inside a disjunction
-              "(and (or (not (= ?x ?y)) (r)))", "(and (p ?x) (or (= ?x ?y) (q ?x ?y)))"):     # (in)equalities inside a disjunction
+              "(and (or (not (= ?x ?y)) (r)))", "(and (p ?x) (or (= ?x ?y) (q ?x ?y)))",      # (in)equalities inside a disjunction
+              "(and (not (= ?x ?y)) (or (q ?x ?y) (r)))", "(and (or (p ?x) (not (= ?x ?y))) (= ?x ?y))",
+              # a numeral as the FIRST operand of a comparison / of an arithmetic node
+              "(and (<= 1 (g ?x)))", "(and (> 2 (f)) (p ?x))", "(and (or (r) (< 0.5 (+ (g ?x) (f)))))", "(and (>= 1 (g ?y)))",
+              "(and (< 1 (* 2 (g ?x))))", "(and (>= (- 2 (g ?x)) (f)))", "(and (= ?x ?y) (<= 0 (- 1 (g ?y))))",
+              # a quantified variable that shadows a parameter, next to a quantifier whose body mentions that parameter
+              "(and (forall (?y - t1) (or (p ?y) (m ?y))) (forall (?z - t1) (or (q ?y ?z) (m ?z))))",
+              "(and (forall (?z - t1) (or (q ?z ?x) (m ?z))) (forall (?x - t2) (and (p ?x))))"):
         yield t, ["extra"]
     for T, lz in LZ.items():
         for a in L10[:5]:
@@ -301,6 +308,17 @@ EXTRA_EFF = [  # constant before a variable; constants inside function terms; sa
     "(and (when (r) (p ?x)) (when (r) (p ?y)))",
     "(and (m c) (when (m c) (not (p c))))",                                  # constant of a proper subtype of the position's type
     "(and (when (or (r) (>= (g ?x) 1)) (not (r))))",                         # comparison inside a disjunctive condition
+    # two quantified effects over unrelated types / with differently named variables
+    "(and (forall (?z - t2) (when (p ?z) (not (p ?z)))) (forall (?w - t3) (when (m ?w) (not (m ?w)))))",
+    "(and (forall (?w - t3) (when (not (m ?w)) (m ?w))) (forall (?z - t1) (when (q ?x ?z) (p ?z))))",
+    # a numeral as the first operand
+    "(and (increase (f) (* 2 (g ?x))))", "(and (assign (g ?x) (- 10 (g ?y))))", "(and (when (<= 1 (g ?x)) (r)))",
+    "(and (when (> 2 (+ (f) (g ?y))) (decrease (f) (/ 1 (g ?x)))))",
+    # one effect group reads what another group writes (all right-hand sides are read in the state before the action)
+    "(and (assign (g ?x) (g ?y)) (when (r) (assign (g ?y) (g ?x))))",
+    "(and (increase (f) 1) (when (p ?x) (assign (g ?x) (f))) (when (not (p ?x)) (decrease (g ?y) (f))))",
+    # delete and add of one atom in one group (delete, then add)
+    "(and (not (q ?x ?y)) (q ?x ?y))", "(and (p ?x) (not (p ?x)) (r))",
 ]
 NAMES_PRE = ["(and (not (p ?x)) (p ?y))", "(and (p ?x) (not (p ?y)))", "(and (not (q ?x ?y)) (q ?y ?x))", "(and (not (m ?x)))",
              "(and (or (not (p ?x)) (q ?x ?y)))", "(and (forall (?z - t1) (or (not (p ?z)) (q ?x ?z))))"]
@@ -347,8 +365,26 @@ def layout_programs():
                "pre": pre, "eff": eff, "tags": ["layout"], "header": "layout"}
 
 
+DEEP_TYPES = "(:types t1 t3 - object t2 - t1 t4 - t2 t5 - t4)"   # five levels: object > t1 > t2 > t4 > t5
+DEEP_OBJECTS = {"o1": "t1", "o2": "t2", "o4": "t4", "o5": "t5", "o3": "t3"}
+DEEP = [
+    ("?x - t1 ?y - t5", "(and (p ?y) (forall (?z - t4) (or (p ?z) (m ?z))))",
+     "(and (q ?x ?y) (forall (?z - t2) (when (p ?z) (not (p ?z)))))"),
+    ("?x - t4 ?y - t2", "(and (not (= ?x ?y)) (or (q ?x ?y) (>= (g ?x) 1)))", "(and (increase (g ?y) 1) (m ?x))"),
+]
+
+
+def deep_programs():
+    for params, pre, eff in DEEP:
+        text = (f"(define (domain v)\n{REQ}\n{DEEP_TYPES}\n{PREDS_T}\n{FUNCS_T}\n(:action a\n :parameters ({params})\n"
+                f" :precondition {pre}\n :effect {eff}))\n")
+        yield {"domain": text, "objects": dict(DEEP_OBJECTS), "profile": "deep " + params, "pre": pre, "eff": eff,
+               "tags": ["layout", "deep-types"], "header": "layout"}
+
+
 def eff_programs(tier: str):
     yield from layout_programs()
+    yield from deep_programs()
     # effects that read what another effect of the same action writes (zero-arity and parameterised fluents)
     for text in MUTUAL:
         yield program("xy", "(and)", text, ["mutual"])
